@@ -867,8 +867,8 @@ def _big_case(n, seed):
 def plan(tier):
     if tier == 'quick':
         return [{'n': 4, 'cap': 3000} for i in range(16)]
-    specs = [{'n': 150, 'cap': 3000, 'big': BIG_SIZES[i], 'seed': i + 1} for i in range(5)]
-    specs += [{'n': 350, 'cap': 3000} for i in range(11)]
+    specs = [{'n': 60, 'cap': 3000, 'big': BIG_SIZES[i], 'seed': i + 1} for i in range(5)]
+    specs += [{'n': 150, 'cap': 3000} for i in range(11)]
     return specs
 
 
